@@ -47,6 +47,50 @@ fn main() {
             });
             std::process::exit(runner::replay_file(def, std::path::Path::new(&args[3])));
         }
+        "fuzzable" => {
+            // exit 0 iff the property has a fuzz target
+            let ok = args.get(2).map_or(false, |id| acverif::fuzzdec::FUZZABLE.contains(&id.as_str()));
+            std::process::exit(if ok { 0 } else { 1 });
+        }
+        "gen-corpus" => {
+            // gen-corpus <ID> <dir> <n>: deterministic pseudo-random byte files (a pure function of VERIF_SEED)
+            let id = &args[2];
+            let dir = std::path::Path::new(&args[3]);
+            let n: usize = args[4].parse().unwrap();
+            std::fs::create_dir_all(dir).unwrap();
+            use proptest::prelude::*;
+            use proptest::strategy::ValueTree;
+            let mut runner = proptest::test_runner::TestRunner::new_with_rng(
+                proptest::test_runner::Config { failure_persistence: None, ..Default::default() },
+                runner::worker_rng(seed, id, 999),
+            );
+            let strat = proptest::collection::vec(any::<u8>(), 16..=700);
+            for i in 0..n {
+                let v = strat.new_tree(&mut runner).unwrap().current();
+                std::fs::write(dir.join(format!("seed-{:04}", i)), v).unwrap();
+            }
+        }
+        "decode-artifact" => {
+            // decode-artifact <ID> <artifact> <out.json>
+            let data = std::fs::read(&args[3]).unwrap();
+            let mut case = acverif::fuzzdec::decode(&args[2], &data);
+            case.note = format!("decoded from libFuzzer artifact {}", args[3]);
+            std::fs::write(&args[4], serde_json::to_string_pretty(&case.to_json()).unwrap()).unwrap();
+        }
+        "merge-fuzz" => {
+            // merge-fuzz <ID> <fuzz.json>: add a fuzz block to the evidence file written by this invocation
+            let path = runner::verif_root().join("evidence").join(format!("{}.json", args[2]));
+            let mut ev: serde_json::Value = serde_json::from_str(&std::fs::read_to_string(&path).unwrap()).unwrap();
+            let fz: serde_json::Value = serde_json::from_str(&std::fs::read_to_string(&args[3]).unwrap()).unwrap();
+            if fz["violations"].as_u64().unwrap_or(0) > 0 {
+                ev["violations"] = serde_json::json!(ev["violations"].as_u64().unwrap_or(0) + fz["violations"].as_u64().unwrap());
+            }
+            if let Some(w) = fz["wall_s"].as_f64() {
+                ev["wall_s"] = serde_json::json!(ev["wall_s"].as_f64().unwrap_or(0.0) + w);
+            }
+            ev["coverage"]["fuzz"] = fz;
+            std::fs::write(&path, serde_json::to_string_pretty(&ev).unwrap()).unwrap();
+        }
         "c15-child" => {
             // c15-child <tier> <seed> <worker> <cases> <out> <crumb>
             let tier = if args[2] == "thorough" { Tier::Thorough } else { Tier::Quick };
